@@ -90,6 +90,32 @@ def confirm(name, prop, diff, demo_path, needs):
     return 0
 
 
+def run_scratch(name, checks, tier):
+    """like run, but the change is applied to a scratch worktree of /repo (outside /repo and /verif) and the checks are pointed at it
+    with VERIF_REPO; /repo itself is not touched (useful while something else is using /repo)"""
+    d = os.path.join(SEEDED, name)
+    meta = json.load(open(os.path.join(d, 'meta.json')))
+    checks = checks or [meta['property']]
+    wt = tempfile.mkdtemp(prefix='gvseedrun', dir='/var/tmp')
+    os.rmdir(wt)
+    rc, txt = sh(['git', '-C', '/repo', 'worktree', 'add', '--detach', wt, 'HEAD'])
+    assert rc == 0, txt
+    results = meta.setdefault('checks', {})
+    try:
+        rc, txt = sh(['git', 'apply', os.path.join(d, 'patch.diff')], cwd=wt)
+        assert rc == 0, txt
+        for c in checks:
+            rc, out = sh(['./check', c, '--tier', tier], cwd=VERIF, env=dict(os.environ, VERIF_REPO=wt), timeout=7200)
+            lines = [ln for ln in out.splitlines() if ln.startswith(('VIOLATION', 'PASS', 'KNOWN-FINDING'))]
+            detail = [ln for ln in out.splitlines() if ln.startswith('  ')][:2]
+            results[c] = {'tier': tier, 'exit': rc, 'lines': lines[:4], 'detail': detail, 'how': 'scratch worktree via VERIF_REPO'}
+            print(name, c, rc, lines[:2], detail[:1])
+    finally:
+        sh(['git', '-C', '/repo', 'worktree', 'remove', '--force', wt])
+        shutil.rmtree(wt, ignore_errors=True)
+    json.dump(meta, open(os.path.join(d, 'meta.json'), 'w'), indent=1)
+
+
 def run(name, checks, tier):
     d = os.path.join(SEEDED, name)
     meta = json.load(open(os.path.join(d, 'meta.json')))
@@ -130,3 +156,5 @@ if __name__ == '__main__':
         sys.exit(confirm(a[1], a[2], a[3], a[4], needs))
     elif a[0] == 'run':
         run(a[1], a[2:], tier)
+    elif a[0] == 'run-scratch':
+        run_scratch(a[1], a[2:], tier)
